@@ -39,12 +39,19 @@ def _dig(a):
     return hashlib.sha256(str(a.shape).encode() + a.tobytes()).hexdigest()[:20]
 
 
+def fid_member(X, scale, i):
+    """Harness-owned member job (pure NumPy, independent of the code under test): draws from the process-global
+    generator, so its result depends on the per-worker generator state exactly as the pre-repair ensemble did."""
+    import numpy as np
+    n = np.random.randn(*X.shape)
+    return np.cumsum(X + scale * n, axis=0)
+
+
 def traced_member(*args):
-    """Runs in a pool worker: which worker am I, and the member decomposition."""
+    """Runs in a real pool worker: which worker am I, and the member result."""
     import multiprocessing as mp
-    import emd
     ident = mp.current_process()._identity[0]
-    return ident, emd.sift._sift_with_noise(*args)
+    return ident, fid_member(*args)
 
 
 def traced_inplace(A, i):
@@ -62,7 +69,7 @@ def inplace_member(A, i):
 def _args_for(case, emd, x):
     X = x[:, None]
     scaling = X.std() * 0.2
-    return [(X, scaling, None, case['mode'], 1e-8, 2, ii, None, None, None) for ii in range(case['nens'])]
+    return [(X, scaling, ii) for ii in range(case['nens'])]
 
 
 def real_side(cases_json):
@@ -119,7 +126,7 @@ def sim_side(args):
             if case['advance']:
                 np.random.randn(case['advance'])
             p = emd.sift.mp.Pool(processes=case['nproc'])
-            res = p.starmap(emd.sift._sift_with_noise, _args_for(case, emd, x), chunksize=case['chunksize'])
+            res = p.starmap(fid_member, _args_for(case, emd, x), chunksize=case['chunksize'])
             p.close()
             order2 = sorted(set(real['idents2']))
             w.poolcfg = {'start': 'fork', 'durmodel': 'unit', 'force_assign': [order2.index(i) for i in real['idents2']]}
